@@ -70,8 +70,14 @@ func verifH_C17_dbs() {
 	hist := ""
 	for i := 0; i < steps; i++ {
 		k := verifScriptKind(script, steps, i)
+		if i == verifParam("bulkat", -1) {
+			k = 9
+		}
 		if k < 0 {
 			k = verifChoice("step", kinds)
+		}
+		if k == 9 && verifParam("nobulk", 0) == 1 {
+			verifAssume(false)
 		}
 		hist += fmt.Sprintf("%d,", k)
 		verifTag("steps", hist)
@@ -118,13 +124,24 @@ func verifH_C17_dbs() {
 				verifAssert(err == nil, "insert-ok")
 				dbs[cur].rows = append(dbs[cur].rows, int64(d-'0'))
 			}
+		case 9: // INSERT of nine rows at once: a fresh table's root leaf splits and its root moves
+			err := sess.ExecQuery("INSERT INTO t VALUES (1), (2), (3), (4), (5), (6), (7), (8), (9)")
+			switch {
+			case cur == "" || !dbs[cur].hasT:
+				verifAssert(err != nil, "insert-needs-database-and-table")
+			default:
+				verifAssert(err == nil, "insert-ok")
+				for v := int64(1); v <= 9; v++ {
+					dbs[cur].rows = append(dbs[cur].rows, v)
+				}
+			}
 		case 7: // a pause: the flush timer of some live store fires
 			n := verifNumTickers()
 			if n == 0 {
 				verifAssume(false)
 			}
 			verifTick(verifChoice("ticker", n))
-		default: // restart: clean shutdown or crash, then start-up and a fresh session
+		case 8: // restart: clean shutdown or crash, then start-up and a fresh session
 			if verifChoice("crash", 2) == 0 {
 				verifAssert(sess.Close() == nil, "close-ok")
 			}
@@ -153,8 +170,10 @@ func verifH_C17_dbs() {
 		verifAssert(sess.ExecQuery("USE "+n) == nil, "final/use-ok")
 		verifCheckCurrent(sess, n, dbs, "final/")
 		if dbs[n].hasT {
-			verifAssert(sess.ExecQuery("INSERT INTO t VALUES (7)") == nil, "final/insert-ok")
-			dbs[n].rows = append(dbs[n].rows, 7)
+			for extra := int64(70); extra < 76; extra++ {
+				verifAssert(sess.ExecQuery(fmt.Sprintf("INSERT INTO t VALUES (%d)", extra)) == nil, "final/insert-ok")
+				dbs[n].rows = append(dbs[n].rows, extra)
+			}
 			verifCheckCurrent(sess, n, dbs, "final2/")
 		}
 	}
